@@ -76,7 +76,7 @@ def c08(ctx, rep):
     rep.rule('FP-ERR', 'fall-through value is Err(DivergenceLimitExceeded{offset, limit}) built from the parameters')
     rep.rule('FP-WRAP', 'search == search_with_offset(supply, 0, limit, &workload) in the debug and the release configuration')
     rep.rule('ERR-ORIGIN', 'who-may-construct: SearchFailure values are built only inside the fixed-point kernel')
-    rep.rule('FP-MAX', 'max_response_time: comparator table, default Ok(0), no adaptor, unwraps dominated by !is_err')
+    rep.rule('FP-MAX', 'max_response_time: selection table of the pairwise combinator (max_by comparator or reduce function) over (left Ok?, right Ok?), default Ok(0), no adaptor, unwraps dominated by an Ok test')
     rep.rule('FP-SIB', 'the debug-only linear scan agrees on range inclusivity, zero-demand result and Err payload')
     rep.rule('ST-INIT/ST-RET/ST-STEP', 'default service_time: starts at demand, returns under supply >= demand, advances by demand - supply')
     rules_fp.check_search_with_offset(rep, dbg)
@@ -87,7 +87,8 @@ def c08(ctx, rep):
     rules_fp.check_max_response_time(rep, dbg)
     rules_fp.check_brute_sibling(rep, dbg)
     rules_fp.check_default_service_time(rep, dbg)
-    rep.floor('rule instances', len(rep.instances), 20)
+    # 21 today; the two FP-MAX:unwrap instances exist only while the comparator reads the payloads through unwrap()
+    rep.floor('rule instances', len(rep.instances), 19)
     return ('Static dataflow analysis of fixed_point.rs and the default SupplyBound::service_time: each loop is '
             'summarised by one symbolic iteration (loop-carried variable = root, every return/assignment/break with its '
             'path condition as canonical linear inequalities). Decides ten structural clauses necessary for C08 (start '
